@@ -1,3 +1,4 @@
 From TT Require Import Base.Verdict Run.Lt_run.
 Definition case := Lt_run.case.
 Definition check_case := check_c01.
+Definition hyp_case := hyp_c01.
